@@ -138,6 +138,8 @@ def run(ctx):
         if sp and not sp.get("deleted") and not sp.get("user_provided") and (sp.get("defaulted") or sp.get("implicit")) and not any(f.flags.get(op) for f in ctors):
             n_default += 1
             if op == "move_ctor":
+                ctx.bad("R07.2", FV, "move-leaves-source-empty:move_ctor=default", "the compiler-generated move constructor copies size_ and does not reset the source's: after `w(std::move(v))` the source still "
+                        "reports its old size over null storage - the sequence is duplicated in length, not transferred (move assignment builds on this constructor)", "%s:%d" % (cls["file"], cls["line"]))
                 ctx.ok("R07.2", FV, "transfers-all-fields:%s=default" % op, "compiler-generated member-wise move transfers size_, capacity_ and data_ (the state of the source afterwards is C06's R06.7)", "%s:%d" % (cls["file"], cls["line"]))
             else:
                 ctx.bad("R07.2", FV, "transfers-all-fields:%s=default" % op, "a compiler-generated copy constructor cannot copy the unique_ptr storage", "%s:%d" % (cls["file"], cls["line"]))
@@ -158,6 +160,23 @@ def run(ctx):
             ctx.check(src in s and ("%s.capacity_" % src in s or "%s.capacity()" % src in s), "R07.2", f, "delegates-with-source:" + tag,
                       "the delegating constructor call %s does not pass the source's capacity and contents" % s, f)
             continue
+        if f.flags.get("move_ctor"):
+            # the source's size is set to 0 on every path (the sequence moves, its length is not duplicated)
+            def zeroes_src(e, src=src):
+                x = e.get("expr")
+                if x is None:
+                    return False
+                for n in walk(x, into_sc=False):
+                    if n.get("k") == "bin" and n["op"] == "=" and fmt(ir.unwrap(n["l"])) == "%s.size_" % src and fmt(ir.unwrap(n["r"])) == "0":
+                        return True
+                    if n.get("k") == "call" and short(n.get("name") or "") in ("swap", "exchange") and "%s.size_" % src in fmt(n):
+                        return True
+                    if n.get("k") == "call" and short(n.get("name") or "") in ("clear",) and fmt(ir.unwrap(n.get("this") or {})) == src:
+                        return True
+                return False
+            okz, pz = cfg.must_happen_before_exit(f, zeroes_src)
+            ctx.check(okz, "R07.2", f, "move-leaves-source-empty:" + tag, "the move constructor can finish (B%s) without setting %s.size_ to 0: the source still reports its old size over storage it no longer owns"
+                      % ("->B".join(map(str, pz or [])), src), f)
         body_writes = set()
         for bid, i, e in f.roots():
             body_writes |= writes_state(prog, cg, f, e)
@@ -176,6 +195,25 @@ def run(ctx):
                       "the %s constructor does not take %s from the source: the new container %s" % (
                           "move" if f.flags.get("move_ctor") else "copy", fld, "reports size 0 although it owns the elements" if fld == "size_" else "is inconsistent"), f)
 
+    # ---- R07.8: which operator= does `dst = src` run? (an added assignment template with a forwarding-reference parameter is an
+    # exact match for a non-const lvalue and takes ordinary copy assignments away from the copy assignment operator)
+    ctx.rule("R07.8", "overload-resolution witness: assigning a fixed_vector lvalue / const lvalue / rvalue / braced list selects the copy, copy, move and initializer_list assignment operators")
+    from .common import chosen
+    wf = [f for f in prog.find("vwit::fixed_vector_assignments") if f.has_cfg]
+    if ctx.anchor("R07.8", "vwit::fixed_vector_assignments", bool(wf)):
+        want = ["copy_assign", "copy_assign", "move_assign", "initializer_list"]
+        sel = [c0 for c0 in chosen(prog, wf[0]) if c0[2] == "assign"]
+        ctx.need("R07.8", "assignments in the witness", len(sel), 4)
+        for (ln, text, kind, g, n), w in zip(sel, want):
+            if g is None:
+                ctx.broken("R07.8", wf[0], "assignment-selects:" + text, "the selected operator= is not in the facts", (wf[0], ln))
+                continue
+            pt = (g.params[0].get("type") or "") if g.params else ""
+            ok = (g.flags.get(w) is True) if w != "initializer_list" else ("initializer_list" in pt)
+            tmpl = g.flags.get("instantiation_of") and prog.fn(g.flags["instantiation_of"]) is not None and any(p0.get("fwd") for p0 in prog.fn(g.flags["instantiation_of"]).params)
+            ctx.check(ok and not tmpl, "R07.8", wf[0], "assignment-selects:" + text,
+                      "`%s` runs %s instead of the %s assignment operator: ordinary assignments are rerouted through an overload that need not yield an equal container (capacity, contents)"
+                      % (text, g.id[:120], w.replace("_", " ")), (wf[0], ln), why_ok=short(g.qual) + "(" + pt + ")")
     # ---- R07.6: emplace builds the element the way std containers do - direct-initialisation from the forwarded arguments.
     # List-initialisation prefers an initializer_list constructor: emplace_back(3, 'x') on strings would store "\x03x", not "xxx".
     ctx.rule("R07.6", "emplace/emplace_back construct the element by direct-initialisation T(args...); a range insert walks its source exactly once")
